@@ -46,6 +46,7 @@ impl Compactor {
                 .storage
                 .version
                 .get_rowset(table.table_id(), *rowset_id);
+            rowset.check_readable()?;
             let on_disk_size = rowset.on_disk_size();
             if on_disk_size + current_size <= self.storage.options.target_rowset_size as u64 {
                 current_size += on_disk_size;
